@@ -51,6 +51,19 @@ class Client:
         return [cid for cid, c in w.pool["c"].items()
                 if pred is None or pred(cid, c)]
 
+    def seed_value(self):
+        """Seeds handed to the library: mostly arbitrary, sometimes boundary
+        values (0 is falsy, 1, 2**32 - 1)."""
+        r = self.rng
+        x = r.random()
+        if x < 0.12:
+            return 0
+        if x < 0.17:
+            return 1
+        if x < 0.2:
+            return 2 ** 32 - 1
+        return r.randrange(1 << 30)
+
     def pick(self, xs):
         return xs[self.rng.randrange(len(xs))] if xs else None
 
@@ -428,6 +441,20 @@ class Tuner(Client):
 
     def new_param(self):
         r, w = self.rng, self.w
+        # sometimes an exact twin of an existing parameter: a distinct object
+        # with equal value, bounds and label
+        if w.pool["p"] and r.random() < 0.2:
+            src = self.pick(list(w.pool["p"]))
+            p = w.pool["p"][src]
+            v = p.get()
+            if isinstance(v, (int, float)) and not isinstance(v, bool):
+                o = {"op": "new_param", "value": v, "out": w.new_id("p"),
+                     "role": w.meta["p"][src].get("role", "phi")}
+                if p.has_bounds() and p.min_bound is not None and p.max_bound is not None:
+                    o["bounds"] = [p.min_bound, p.max_bound]
+                if p.label is not None:
+                    o["label"] = p.label
+                return o
         role = r.choice(["r", "phi", "loss", "phi", "r"])
         v = self.valid_value(role, None, None)
         o = {"op": "new_param", "value": v, "out": w.new_id("p"), "role": role}
